@@ -54,13 +54,15 @@ def E(expr):
 # --------------------------------------------------------------------------- the hand-written part of the value derivation
 # modes_pref: the noise modes in which the value takes effect (the code overwrites the option under noise, or reads it only there) - used by
 # the quick tier's choice of ONE mode per value; the thorough tier runs all four.
+# quick_all_modes: termination / final-phase options - where a run ends decides which final phase runs, and the final phase differs in every
+# noise mode (the repaired crashes 99801e5, f2c66cf were of this kind): the quick tier runs these in all four modes too.
 # values: REPLACES the generic derivation;  add: appended to it;  exclude: [(value, why)] recorded in the evidence, never run;
 # spec: run conditions;  modes: restrict the noise modes;  cell_exclude: {(label, mode): why};  gpfault: also run with injected LinAlgError
 SPECIAL = {
     "display": dict(values=[J("iter"), J("full"), J("notify"), J("final")],
                     why="enumeration: BADS.__init__ compares with 'off'/'iter'/'full'; 'notify'/'final' are the two further documented levels (the base runs use 'off')"),
-    "max_iter": dict(values=[J(1), J(2), J(3)], why="positive count; a larger value than the default 200*D cannot bind in a short run"),
-    "max_fun_evals": dict(values=[J(2), J(3), J(10), J(20), J(21), J(22)],
+    "max_iter": dict(quick_all_modes=True, values=[J(1), J(2), J(3)], why="positive count; a larger value than the default 200*D cannot bind in a short run"),
+    "max_fun_evals": dict(quick_all_modes=True, values=[J(2), J(3), J(10), J(20), J(21), J(22)],
                           exclude=[(1, "open known finding of C09 (KeyError eff_starting_points), run by the C09 panel itself")],
                           why="budgets around the size of the initial design (D, and 20 under noise)"),
     "nonlinear_scaling": dict(spec=dict(box="log"), why="only changes anything on a box that qualifies for the log transform"),
@@ -71,7 +73,7 @@ SPECIAL = {
     "specify_target_noise": dict(values=[], why="mode-defining: the 'specified' mode is this option (the target's return contract changes with it); every specified-mode run exercises it"),
     "noise_size": dict(values=[J(0.01), J(1.0), J(30.0), E("np.array([0.5])")],
                        why="documented as a scalar SD estimate; a 1-element array is handled explicitly by _init_optimization_ (.item())"),
-    "noise_final_samples": dict(modes_pref=["auto", "declared", "specified"], values=[J(0), J(1), J(2), J(25)], why="count of final samples; 0 and 1 have their own branches"),
+    "noise_final_samples": dict(quick_all_modes=True, modes_pref=["auto", "declared", "specified"], values=[J(0), J(1), J(2), J(25)], why="count of final samples; 0 and 1 have their own branches"),
     "random_seed": dict(values=[J(None), J(7)], why="None = no seeding (documented)"),
     "plot": dict(values=[J("scatter"), J("profile")], why="enumeration of the documentation; the code only compares with 'scatter'"),
     "tol_mesh": dict(add=[J(0.25)], why="float tolerance; 0.25 stops after two refinements"),
@@ -82,7 +84,7 @@ SPECIAL = {
     "tol_noise": dict(modes_pref=["det", "auto"], add=[J(10.0)], why="10.0 makes the start-up noise test treat a noisy target as deterministic (the user's statement about the target)"),
     "init_fun": dict(values=[], exclude=[("anything but 'init_sobol'", "the code raises 'Initialization function not implemented yet'")]),
     "restarts": dict(values=[J(1), J(2)], why="deprecated counter; only compared with 0"),
-    "cache_size": dict(values=[J(1), J(2), J(1000)], why="initial size of the evaluation log (grows on demand)"),
+    "cache_size": dict(quick_all_modes=True, values=[J(1), J(2), J(1000)], why="initial size of the evaluation log (grows on demand); the log has a different set of columns in every noise mode, hence all modes in the quick tier too"),
     "fun_eval_start": dict(modes_pref=["det"], values=[J(0), J(1), J(2), J(15)], why="size of the initial design; 0 has its own branch (no design)"),
     "fun_values": dict(values=[J(None), E("{'X': np.zeros((2, D)) + [[0.1], [0.2]], 'Y': np.array([[1.0], [2.0]])}")],
                        why="None and {} mean 'no prior evaluations'; a dict with X and Y is the documented use"),
@@ -335,7 +337,10 @@ def plan(tab, tier, seed):
             pref = SPECIAL.get(k[0], {}).get("modes_pref")
             if pref:
                 cs = [c for c in cs if c["mode"] in pref] or cs
-            chosen.append(cs[(i + seed + rng.randrange(4)) % len(cs)])
+            if SPECIAL.get(k[0], {}).get("quick_all_modes"):
+                chosen += cs
+            else:
+                chosen.append(cs[(i + seed + rng.randrange(4)) % len(cs)])
     return [make_spec([(c["option"], c["value"])], c["mode"], seed, tab[c["option"]]["spec"], c["gpfault"]) for c in chosen]
 
 
